@@ -3,6 +3,7 @@ import NxProofs.ApiSettings
 import NxProofs.ApiSetters
 import NxProofs.ApiWire
 import NxProofs.ApiSetSeq
+import NxProofs.ApiReject
 /-!
 # C20 — the documented public API exists and every documented knob takes effect
 
@@ -152,6 +153,23 @@ theorem nasc_setter_last_call_wins (s s₁ : Nasc) (st st' : NascSet) (h : st.ki
 
 example : ∃ s₁, ({ bssId := "aabbcc" } : Nasc).apply (.title 0x0004000000030800 1 "AAAA" "07" 2 (some "romA")) = .ok s₁ ∧
     (s₁.apply (.title 0x0004000000030900 2 "----" "00" 0 none)).toOption.map (·.romId) = some none := ⟨_, rfl, rfl⟩
+
+/-- a REJECTED setter call (the exception caught) leaves the client as it was: from any history of setter calls on one client the
+    rejected calls can be deleted without changing the client — hence every later request is the request of a client that never saw
+    them. (`Nasc.apply` is `Except`-valued, so "no partial write" is how the model is built; the statement is the specification the
+    real client is held to by harness/c20_reject.py, which finds the rejected values itself. Switch clients: `Nx.C18.set_version_atomic`.) -/
+theorem nasc_rejected_setter_changes_nothing (s : Nasc) (l : List NascSet) :
+    l.foldl Nasc.applyCaught s = (l.filter fun st => !st.refused).foldl Nasc.applyCaught s :=
+  nasc_history_without_rejected s l
+
+/-- the refused calls are exactly the ones `apply` raises on, whatever the client's state -/
+theorem nasc_rejected_iff_refused (s : Nasc) (st : NascSet) : (∃ e, s.apply st = .error e) ↔ st.refused = true :=
+  nasc_refused_iff s st
+
+example : ([NascSet.title 0x0004000000030800 1 "AAAA" "07" 1 (some "romA"), .title 0x0004000000030900 2 "AMKE" "01" 2 none].foldl
+    Nasc.applyCaught ({ bssId := "aabbcc" } : Nasc)).titleId = some 0x0004000000030800 := rfl
+example : (NascSet.title 0x0004000000030900 2 "AMKE" "01" 2 none).refused = true ∧
+    (NascSet.title 0x0004000000030900 2 "AMKE" "01" 2 (some "r")).refused = false := ⟨rfl, rfl⟩
 
 /-- the optional headers are absent from a client on which the setter was never called; hence `set_title` / `set_device`
     with *any* arguments is observable against the never-configured client -/
